@@ -214,13 +214,34 @@ class Repo:
             except SyntaxError as e:  # the tree must compile
                 raise AnalysisError(f"syntax error in {rel}: {e}") from e
             parsed.append((f, rel, modname, src, tree))
-        from .normalise import collect_signatures, normalise
+        from .normalise import collect_signatures, inline_single_use_helpers, normalise
 
+        # local canonicalisation first (N1-N4), then the single-use helpers are folded (N5), then N1-N3 once more on the result
         sigs = collect_signatures([p[4] for p in parsed])
+        trees = []
         for f, rel, modname, src, tree in parsed:
             tree, stats = normalise(tree, sigs)
             for k_, v_ in stats.items():
                 self.normalised[k_] = self.normalised.get(k_, 0) + v_
+            trees.append(tree)
+        if os.environ.get("SA_INLINE", "1") == "1":
+            total = 0
+            for _ in range(8):  # chains of single-use helpers fold from the inside out
+                k5 = inline_single_use_helpers(trees)
+                if not k5:
+                    # helpers that cannot be folded at their call site (early return, not in return position) must not
+                    # block their callers for ever
+                    k5 = inline_single_use_helpers(trees, leaf_first=False)
+                total += k5
+                if not k5:
+                    break
+            self.normalised["N5"] = total
+            if total:
+                for k, tree in enumerate(trees):
+                    trees[k], stats = normalise(tree, None)
+                    for k_, v_ in stats.items():
+                        self.normalised[k_] = self.normalised.get(k_, 0) + v_
+        for (f, rel, modname, src, _), tree in zip(parsed, trees):
             m = ModuleInfo(modname, f, rel, src, tree)
             self.modules[modname] = m
         for m in self.modules.values():
